@@ -40,6 +40,15 @@ func init() {
 		r := runTemplate(pre+"{{.}}"+post, "", valueFromWire(in[5]), false)
 		c.Case("url_attr", hx(in[0]), hx(in[1]), hx(in[2]), hx(in[3]), hx(in[4]), hx(in[5]), hx(pre), hx(post), r.outcome, hx(r.out))
 	})
+	// url_range <element> <attribute> <static prefix> <static text after the action inside the loop> <hostile item>:
+	//   <E A="PREFIX{{range .}}{{.}}SEP{{end}}">  executed with the inert list [a b] and with [a HOSTILE]: the second
+	//   iteration's data stands after whatever the first iteration wrote
+	reg("url_range", 5, func(c *caseWriter, in []string) {
+		text := "<" + in[0] + " " + in[1] + `="` + in[2] + "{{range .}}{{.}}" + in[3] + `{{end}}">`
+		ri := runTemplate(text, "", []string{"a", "b"}, false)
+		rh := runTemplate(text, "", []string{"a", in[4]}, false)
+		c.Case("url_range", hx(in[0]), hx(in[1]), hx(in[2]), hx(in[3]), hx(in[4]), ri.outcome, hx(ri.out), rh.outcome, hx(rh.out))
+	})
 	reg("url_proc", 1, func(c *caseWriter, in []string) {
 		n1 := safehtml.VerifNormalizeURL(in[0])
 		c.Case("url_proc", hx(in[0]), hx(n1), hx(safehtml.VerifNormalizeURL(n1)), hx(safehtml.VerifQueryEscapeURL(in[0])))
@@ -190,6 +199,16 @@ func runC14(c *caseWriter) (string, bool, map[string]int) {
 		}
 	}
 
+	// (2c) an action inside a loop with static text after it: later iterations stand after a longer prefix
+	for _, cl := range []c14Class{{"a", "href", ""}, {"img", "src", ""}, {"form", "action", ""}, {"script", "src", ""}, {"iframe", "src", ""}} {
+		for _, pre := range []string{"/p/", "", "/p", "https://h.example/d/", "/p/x"} {
+			for _, sep := range []string{"?", "?q=", "#", "/", "&amp;", ";", "?a=1&amp;b="} {
+				for _, h := range []string{"b&c=d#e", "b#f", "b/../..", "b?x=y", "b&amp;c"} {
+					emit(c, "url_range", cl.e, cl.a, pre, sep, h)
+				}
+			}
+		}
+	}
 	// (3) the prefix grammar: scheme x host x path x query x fragment, then a tail
 	schemes := []string{"http:", "https:", "mailto:", "javascript:", "JavaScript:", "data:", "java", "j", ""}
 	hosts := []string{"", "//a.b", "//a.b/", "//a.b:80/d/"}
